@@ -813,14 +813,24 @@ def run(repo, tier):
             group()
         except AnalysisError as e:
             rep.undecided(str(e))
-    # every data item owns the bytes it emits (a scratch buffer shared between directives gives all of them the last one's bytes)
+    # every data item owns the bytes it emits (a scratch buffer shared between directives gives all of them the last one's bytes).
+    # The rule looks at the statements before / inside the item loop only, so it is given the loop itself and not a full
+    # PassAnalysis (whose size algebra does not cover every shape of these passes and must not decide this property's verdict).
     from .. import layoutrules as _LR
+    import types
     for name_ in ('resolve_strings', 'resolve_sequences', 'transform_shorthand_packs', 'resolve_packs', 'resolve_include_bytes'):
-        if name_ in facts.funcs:
-            try:
-                _LR.check_shared_buffers(rep, facts, _LR.pass_analysis(facts, name_), 'R10.6.own-payload')
-            except AnalysisError as e:
-                rep.undecided(str(e))
+        fn_ = facts.funcs.get(name_)
+        if fn_ is None:
+            continue
+        loops_ = [st for st in fn_.body if isinstance(st, ast.For)]
+        if not loops_:
+            continue        # no item loop in this function: no buffer can be created before it and refilled inside it here
+        rets_ = [st.value.id for st in fn_.body if isinstance(st, ast.Return) and isinstance(st.value, ast.Name)]
+        pa_ = types.SimpleNamespace(loop_fn=fn_, loop=loops_[0], result=rets_[-1] if rets_ else None, fname=name_, facts=facts)
+        try:
+            _LR.check_shared_buffers(rep, facts, pa_, 'R10.6.own-payload')
+        except AnalysisError as e:
+            rep.undecided(str(e))
     rep.floor('width table rows', 9)
     rep.floor('sign/format cases', 18)
     rep.floor('pack sites', 1)
